@@ -81,6 +81,8 @@ type State struct {
 	bind map[ssa.Value]ssa.Value
 	// stack of call sites being inlined (innermost last)
 	stack []ssa.Instruction
+	// phiSrc records which incoming value each φ took on this path
+	phiSrc map[*ssa.Phi]ssa.Value
 }
 
 func (s *State) clone() *State {
@@ -90,6 +92,12 @@ func (s *State) clone() *State {
 		n.bind[k] = v
 	}
 	n.stack = append([]ssa.Instruction{}, s.stack...)
+	if len(s.phiSrc) > 0 {
+		n.phiSrc = map[*ssa.Phi]ssa.Value{}
+		for k, v := range s.phiSrc {
+			n.phiSrc[k] = v
+		}
+	}
 	for k, v := range s.env {
 		n.env[k] = v
 	}
@@ -368,6 +376,18 @@ func (e *Explorer) block(fn *ssa.Function, b, pred *ssa.BasicBlock, st *State, f
 				for i, p := range b.Preds {
 					if p == pred {
 						inc := phi.Edges[i]
+						// a φ of another block stands for the value it took on this path
+						for k := 0; k < 8; k++ {
+							ip, isPhi := inc.(*ssa.Phi)
+							if !isPhi || ip.Block() == b {
+								break
+							}
+							src, ok := st.phiSrc[ip]
+							if !ok {
+								break
+							}
+							inc = src
+						}
 						if inc == phi {
 							o.PhiIn[phi] = "keep"
 						} else if a := st.Eval(inc); a.K != AUnknown {
@@ -426,6 +446,10 @@ func (e *Explorer) block(fn *ssa.Function, b, pred *ssa.BasicBlock, st *State, f
 			for i, p := range b.Preds {
 				if p == pred {
 					vals[phi] = st.Eval(phi.Edges[i])
+					if st.phiSrc == nil {
+						st.phiSrc = map[*ssa.Phi]ssa.Value{}
+					}
+					st.phiSrc[phi] = phi.Edges[i]
 				}
 			}
 		}
